@@ -249,7 +249,9 @@ def rule_sanitised(c, rule, fn, expect_objects):
             if call is rcall:
                 continue
             args = [g.r(a) for a in call["inner"][1:]]
-            uses = [a for a in args if a == obj or a == b]
+            # the bare array name is element 0 for single-point routines and the whole array for the rest
+            single = cn is not None and re.match(r"E[12]_(in_G[12]|read_bytes|write_bytes|copy|neg|set_infty|is_infty|to_affine|mult|add)$", cn)
+            uses = [a for a in args if a == obj or (a == b and not (single and obj != b))]
             if not uses:
                 continue
             if cn == "E1_in_G1" and obj in args:
@@ -302,12 +304,12 @@ def rule_pairing_core(c, rule):
     for n in g.nodes:
         if n.kind in ("stmt",):
             ev += path_events(g, [n])
-    want = {"E1_copy(&elemsG1[0], %s)" % s, "E1_copy(&elemsG1[1], %s)" % h, "E2_copy(&elemsG2[0], BLS12_381_minus_g2)", "E2_copy(&elemsG2[1], %s)" % pk}
+    want = {"E1_copy(elemsG1, %s)" % s, "E1_copy(&elemsG1[1], %s)" % h, "E2_copy(elemsG2, BLS12_381_minus_g2)", "E2_copy(&elemsG2[1], %s)" % pk}
     missing = [w for w in sorted(want) if w not in ev]
     c.check(not missing, rule, "bls_verify_E1/operands", c.p.pos(g.f), "pairs are (s,-g2) and (h,pk)", "pairing operands are not (s,-g2),(h,pk): missing " + ", ".join(missing))
     for n in g.nodes:
-        if n.kind == "ret" and n.expr is not None and g.r(n.expr) == "VALID":
-            facts = g.resolved_facts(n)
+        if g.valid_accept_facts(n) is not None:
+            facts = g.valid_accept_facts(n)
             c.check("Fp12_is_one(&e) != 0" in facts, rule, "bls_verify_E1/accept", c.pos(g, n), "VALID only when the pairing product is one", "VALID is returned without the pairing product being one", facts)
     mp = g.calls("Fp12_multi_pairing")
     c.check(len(mp) == 1 and g.r(mp[0][1]) == "Fp12_multi_pairing(&e, elemsG1, elemsG2, 2)", rule, "bls_verify_E1/pairing-call", c.p.pos(g.f),
@@ -327,7 +329,7 @@ def rule_C02(c):
         if not g:
             continue
         ev = path_events(g, [n for n in g.nodes])
-        c.check("E2_copy(&elemsG2[0], BLS12_381_minus_g2)" in ev, "C02.R1", fn + "/minus-g2", c.p.pos(g.f), "signature is paired with -g2", "elemsG2[0] is not set to -g2")
+        c.check("E2_copy(elemsG2, BLS12_381_minus_g2)" in ev, "C02.R1", fn + "/minus-g2", c.p.pos(g.f), "signature is paired with -g2", "elemsG2[0] is not set to -g2")
         # VALID only from Fp12_is_one over the full arrays
         sites, _ = accept_sites(c, g)
         for n, what in sites:
@@ -416,12 +418,12 @@ def rule_C02(c):
     # R4: infinity operands skipped; set_one when nothing was accumulated
     g = c.cfg("C02.R4", "Fp12_multi_pairing")
     if g:
-        copies = [(n, call) for n, call in g.calls("vec_copy") if g.r(call["inner"][1]).startswith(("(p_aff", "p_aff", "(q_aff", "q_aff"))]
+        copies = [(n, call) for n, call in g.calls("vec_copy") if g.r(call["inner"][1]).startswith(("(p_aff", "p_aff", "(q_aff", "q_aff", "&p_aff", "&q_aff"))]
         if not copies:
             c.und("C02.R4", "Fp12_multi_pairing/copies", c.p.pos(g.f), "Miller-loop operand copies not recognised")
         for n, call in copies:
             facts = g.resolved_facts(n)
-            okk = "E1_is_infty((p + i)) == 0" in facts and "E2_is_infty((q + i)) == 0" in facts
+            okk = "E1_is_infty(&p[i]) == 0" in facts and "E2_is_infty(&q[i]) == 0" in facts
             c.check(okk, "C02.R4", "Fp12_multi_pairing/copy:" + g.r(call["inner"][1]).strip("()").split(" ")[0], c.pos(g, n), "pair copied only when neither operand is infinity",
                     "a pair with an infinity operand can be copied into the Miller loop", facts)
         fe = g.calls("final_exp")
@@ -441,13 +443,13 @@ def rule_C17(c):
         # (which object was parsed from which proof is taken from the parse sites found above, wherever they sit)
         for obj, need in parsed.items():
             ev = ev + [need[0][:-len(" == VALID")]]
-        want = ["E1_read_bytes(&elemsG1[0], %s, 48)" % sig1, "E1_read_bytes(&elemsG1[1], %s, 48)" % sig2,
-                "E2_neg(&elemsG2[0], %s)" % pk2, "E2_copy(&elemsG2[1], %s)" % pk1]
+        want = ["E1_read_bytes(elemsG1, %s, 48)" % sig1, "E1_read_bytes(&elemsG1[1], %s, 48)" % sig2,
+                "E2_neg(elemsG2, %s)" % pk2, "E2_copy(&elemsG2[1], %s)" % pk1]
         missing = [w for w in want if w not in ev]
         c.check(not missing, "C17.R1", "bls_spock_verify/operands", c.p.pos(g.f), "pairs are (p1,-pk2) and (p2,pk1)", "SPoCK pairing operands changed: missing " + ", ".join(missing))
         for n in g.nodes:
-            if n.kind == "ret" and n.expr is not None and g.r(n.expr) == "VALID":
-                facts = g.resolved_facts(n)
+            if g.valid_accept_facts(n) is not None:
+                facts = g.valid_accept_facts(n)
                 c.check("Fp12_is_one(&e) != 0" in facts, "C17.R1", "bls_spock_verify/accept", c.pos(g, n), "VALID only when the pairing product is one", "VALID returned without the pairing product being one", facts)
         mp = g.calls("Fp12_multi_pairing")
         c.check(len(mp) == 1 and g.r(mp[0][1]) == "Fp12_multi_pairing(&e, elemsG1, elemsG2, 2)", "C17.R1", "bls_spock_verify/pairing-call", c.p.pos(g.f), "2-pairing", "multi-pairing call changed")
@@ -603,8 +605,8 @@ def rule_C03(c):
                 # substitute single-definition locals
                 for v in vars_in(a):
                     d = g2.def_of(v, n)
-                    if d is not None and d.kind == "decl" and d.expr is not None and v not in [p["name"] for p in c.p.params(f2)]:
-                        s = re.sub(r"\b%s\b" % v, g2.r(d.expr), s)
+                    if d is not None and g2.rhs_of(d, v) is not None and v not in [p["name"] for p in c.p.params(f2)]:
+                        s = re.sub(r"\b%s\b" % v, g2.r(g2.rhs_of(d, v)), s)
                 for v in list(vars_in(a)):
                     pass
                 # second-level substitution (left_len defined via right_len)
@@ -615,8 +617,8 @@ def rule_C03(c):
                             d = g2.def_of(v2, n)
                         except Exception:
                             d = None
-                        if d is not None and d.kind == "decl" and d.expr is not None and v2 not in [p["name"] for p in c.p.params(f2)]:
-                            s = re.sub(r"\b%s\b" % v2, g2.r(d.expr), s)
+                        if d is not None and g2.rhs_of(d, v2) is not None and v2 not in [p["name"] for p in c.p.params(f2)]:
+                            s = re.sub(r"\b%s\b" % v2, g2.r(g2.rhs_of(d, v2)), s)
                 rend.append(s.replace(ln, "LEN"))
             shape.append(rend)
         splits[f2] = shape
@@ -626,7 +628,8 @@ def rule_C03(c):
         def lens(sh, li):
             return [x[li] for x in sh]
         def offs(sh, oi):
-            return [re.search(r"\[(.*)\]$", x[oi]).group(1) if re.search(r"\[(.*)\]$", x[oi]) else x[oi] for x in sh]
+            # `&arr[o]` -> o ; a bare array/pointer name is offset 0 (canonical pointer form)
+            return [re.search(r"\[(.*)\]$", x[oi]).group(1) if re.search(r"\[(.*)\]$", x[oi]) else ("0" if re.fullmatch(r"\w+", x[oi]) else x[oi]) for x in sh]
         L1, L2 = lens(bt, 0), lens(vt, 1)
         O1, O1b, O2 = offs(bt, 1), offs(bt, 2), offs(vt, 2)
         acc_left = {"(LEN - (LEN / 2))", "((LEN + 1) / 2)"}
@@ -702,6 +705,12 @@ def rule_reader_discipline(c, rule, skip=("bls_batch_verify",)):
                 if (var is None and b is n) or (var is not None and re.search(r"\b%s\b" % re.escape(var), s) and g.def_of(var, b) is n):
                     if "VALID" in s:
                         brs.append(b)
+            if not brs and var is not None:
+                # `ret = reader(...); return ret;` : the result is handed to the caller unchanged
+                succ = [x for x in n.succ if x is not None]
+                if succ and all(x.kind == "ret" and x.expr is not None and g.r(x.expr) == var for x in succ):
+                    c.ok(rule, key, c.pos(g, n), "reader result is returned as the function's result")
+                    continue
             if not brs:
                 c.viol(rule, key, c.pos(g, n), "result of %s is not compared with VALID and branched on (parse errors would be ignored)" % cn)
                 continue
@@ -812,7 +821,7 @@ def rule_C04(c):
         okk = bool(sv) and g.r(sv[0][1]["inner"][2]) == "vec" and g.r(sv[0][1]["inner"][3]) == "n"
         c.check(okk, "C04.R3", "E1_sum_vector_byte/sum-range", c.p.pos(g.f), "sum runs over all n parsed points", "sum does not cover the n parsed points")
         rd = [(n_, call) for n_, call in g.calls("E1_read_bytes")]
-        okk = bool(rd) and g.r(rd[0][1]["inner"][2]) == "&%s[(48 * i)]" % inb
+        okk = bool(rd) and reads_at_stride(c, g, g.r(rd[0][1]["inner"][2]), inb, "i", 48)
         c.check(okk, "C04.R3", "E1_sum_vector_byte/stride", c.p.pos(g.f), "i-th point read at offset 48·i", "i-th point is not read at offset 48·i")
 
 
@@ -830,10 +839,32 @@ def index_reads(g, buf, within=None):
     return out
 
 
-def coverage_at(c, g, n, inb, env):
+def coverage_at(c, g, n, inb, env, depth=0):
     """input indices of buffer `inb` inspected on every path to node n (constant-index reads, counted loops,
     memcpy / field readers with constant lengths); env = constants (enum values, bound parameters)"""
     covered, how = set(), []
+    # joins before n: only the predecessors compatible with the facts at n count (an error path that merged with
+    # the accepting one before a status test does not lose what the accepting path inspected)
+    if depth < 2:
+        have = set(g.resolved_facts(n))
+        for j in g.joins_before(n):
+            feas = g.feasible_preds(j, n, have)
+            if not feas or len(feas) == len([p_ for p_ in j.pred if p_ is not None]):
+                continue
+            sets = []
+            for p_ in feas:
+                cv, _ = coverage_at(c, g, p_, inb, env, depth + 1)
+                # the predecessor's own reads
+                if p_.expr is not None:
+                    for x in walk(p_.expr):
+                        if x.get("kind") == "ArraySubscriptExpr" and g.r(x["inner"][0]) == inb:
+                            v = const_eval(x["inner"][1], env)
+                            if v is not None:
+                                cv = cv | {v}
+                sets.append(cv)
+            if sets:
+                covered |= set.intersection(*sets)
+                how.append("paths through %s" % ",".join(str(p_.line) for p_ in feas))
     # direct constant-index reads that dominate the accept site
     for m, ie in index_reads(g, inb):
         v = const_eval(ie, env)
@@ -873,12 +904,38 @@ def coverage_at(c, g, n, inb, env):
         if cn in ("Fp_read_bytes", "Fp2_read_bytes") and base_name(g.r(args[1])) == inb:
             k = const_eval(args[2], env)
             off = 0
-            mo = re.match(r"\(%s \+ (\d+)\)" % inb, g.r(args[1]))
+            mo = re.match(r"&%s\[(\d+)\]" % inb, g.r(args[1]))
             if mo:
                 off = int(mo.group(1))
             if k:
                 covered |= set(range(off, off + k))
     return covered, how
+
+
+def reads_at_stride(c, g, ptr, src, idx, stride):
+    """is `ptr` (rendered pointer argument of a per-element reader inside a loop over idx) the address
+    src + stride·idx?  Accepts the computed offset (&src[stride*idx] / &src[idx*stride]) and a cursor that
+    is initialised to src before the loop and advanced by `stride` exactly once per iteration, on every way to
+    the index increment."""
+    if ptr in ("&%s[(%s * %d)]" % (src, idx, stride), "&%s[(%d * %s)]" % (src, stride, idx)):
+        return True
+    if stride == 1 and ptr == "&%s[%s]" % (src, idx):
+        return True
+    if not re.fullmatch(r"\w+", ptr):
+        return False
+    ev = " ".join(compound_events(g))
+    heads = [h for h in g.nodes if h.kind == "loophead"]
+    for h in heads:
+        init = g.loop_init(h, ptr)
+        if init is None or base_name(g.r(init)) != src or g.r(init) not in (src, "(%s)" % src):
+            continue
+        if ("%s += %d" % (ptr, stride)) not in ev:
+            continue
+        advs = [x for x in g.nodes if x.kind == "stmt" and x.expr is not None and ("(%s += %d)" % (ptr, stride)) in g.r(x.expr)]
+        incs = [x for x in g.nodes if x.kind == "stmt" and x.expr is not None and any(y.get("kind") == "UnaryOperator" and y.get("opcode") == "++" and g.r(y["inner"][0]) == idx for y in walk(x.expr))]
+        if len(advs) == 1 and incs and all(g.dominates(advs[0], i_) for i_ in incs):
+            return True
+    return False
 
 
 def head_of(g, n):
@@ -971,10 +1028,11 @@ def rule_C05(c):
         a, inb, inl = [p["name"] for p in c.p.params(fn)]
         # accept sites: return VALID
         for n in g.nodes:
-            if not (n.kind == "ret" and n.expr is not None and g.r(n.expr) == "VALID"):
+            if g.valid_accept_facts(n) is None:
                 continue
-            facts = g.resolved_facts(n)
-            inf_branch = any(f.startswith("is_infinity != 0") or f == "(%s[0] & 64) != 0" % inb for f in facts)
+            facts = g.valid_accept_facts(n)
+            # the infinity branch is the one that set the output to infinity (whatever the flag test looks like)
+            inf_branch = any(callee_name(cl) in ("E1_set_infty", "E2_set_infty") and g.dominates(m_, n) for m_, cl in g.calls())
             covered = set()
             how = []
             if "%s == %d" % (inl, N) not in facts:
@@ -1022,7 +1080,7 @@ def rule_C05(c):
         "Fr_read_bytes": ["{len} == 32", "re:check_mod_256\\((\\w+), BLS12_381_r\\) != 0"],
         "Fr_star_read_bytes": ["Fr_read_bytes({a}, {in}, {len}) == VALID", "Fr_is_zero({a}) == 0"],
         "Fp_read_bytes": ["{len} == 48", "Fp_check({a}) != 0"],
-        "Fp2_read_bytes": ["{len} == 96", "Fp_read_bytes(&{a}[0], {in}, 48) == VALID", "Fp_read_bytes(&{a}[1], ({in} + 48), 48) == VALID"],
+        "Fp2_read_bytes": ["{len} == 96", "Fp_read_bytes({a}, {in}, 48) == VALID", "Fp_read_bytes(&{a}[1], &{in}[48], 48) == VALID"],
     }
     for fn, needs in table.items():
         g = c.cfg("C05.R2", fn)
@@ -1031,13 +1089,13 @@ def rule_C05(c):
         a, inb, inl = [p["name"] for p in c.p.params(fn)]
         nacc = 0
         for n in g.nodes:
-            if n.kind == "ret" and n.expr is not None and g.r(n.expr) == "VALID":
+            if g.valid_accept_facts(n) is not None:
                 nacc += 1
-                facts = g.resolved_facts(n)
+                facts = g.valid_accept_facts(n)
                 for nd in needs:
                     w = nd.format(a=a, len=inl, **{"in": inb})
                     # tolerate the field-access rendering of real()/imag() macros
-                    alt = w.replace("&%s[0]" % a, "&(*%s)[0]" % a).replace("&%s[1]" % a, "&(*%s)[1]" % a)
+                    alt = w.replace("(%s, " % a, "((*%s), " % a).replace("&%s[1]" % a, "&(*%s)[1]" % a)
                     okk = w in facts or alt in facts or any(norm_eq(f, w) for f in facts)
                     if nd.startswith("re:"):
                         okk = any(re.fullmatch(nd[3:], f) for f in facts)
@@ -1052,8 +1110,8 @@ def rule_C05(c):
         ev = path_events(g, g.nodes)
         tmps = set()
         for n in g.nodes:
-            if n.kind == "ret" and n.expr is not None and g.r(n.expr) == "VALID":
-                for f in g.resolved_facts(n):
+            if g.valid_accept_facts(n) is not None:
+                for f in g.valid_accept_facts(n):
                     mo = re.fullmatch(r"check_mod_256\((\w+), BLS12_381_r\) != 0", f)
                     if mo:
                         tmps.add(mo.group(1))
@@ -1071,10 +1129,11 @@ def rule_C05(c):
             continue
         a, inb, inl = [p["name"] for p in c.p.params(fn)]
         for n in g.nodes:
-            if not (n.kind == "ret" and n.expr is not None and g.r(n.expr) == "VALID"):
+            if g.valid_accept_facts(n) is None:
                 continue
-            facts = g.resolved_facts(n)
-            inf_branch = any(f == "(%s[0] & 64) != 0" % inb or f.startswith("is_infinity != 0") for f in facts)
+            facts = g.valid_accept_facts(n)
+            # the infinity branch is the one that set the output to infinity (whatever the flag test looks like)
+            inf_branch = any(callee_name(cl) in ("E1_set_infty", "E2_set_infty") and g.dominates(m_, n) for m_, cl in g.calls())
             br = "infinity" if inf_branch else "point"
             need = ["%s == %d" % (inl, N), "((%s[0] >> 7) == 1) == 1" % inb]
             if inf_branch:
@@ -1089,6 +1148,9 @@ def rule_C05(c):
                         okk = any(f.startswith(nd) and f.endswith("== VALID") for f in facts)
                     else:
                         okk = any(f.startswith(nd) and f.endswith("!= 0") for f in facts)
+                elif nd == "(%s[0] & 64) == 0" % inb:
+                    # bit 6 clear, however the bit test is written
+                    okk = any(f in (nd, "((%s[0] >> 6) & 1) == 0" % inb, "(%s[0] & 64) != 64" % inb) for f in facts)
                 else:
                     okk = nd in facts or any(norm_eq(f, nd) for f in facts)
                 c.check(okk, "C05.R2", "%s/accept:%s/%s" % (fn, br, nd), c.pos(g, n), "validation step dominates acceptance", "%s accepts (%s branch) without `%s…` being established" % (fn, br, nd), facts)
@@ -1101,8 +1163,8 @@ def rule_C05(c):
     if g:
         A, src, ln = [p["name"] for p in c.p.params("G2_vector_read_bytes")]
         for n in g.nodes:
-            if n.kind == "ret" and n.expr is not None and g.r(n.expr) == "VALID":
-                facts = g.resolved_facts(n)
+            if g.valid_accept_facts(n) is not None:
+                facts = g.valid_accept_facts(n)
                 c.check("i >= %s" % ln in facts, "C05.R2", "G2_vector_read_bytes/accept/all-elements", c.pos(g, n), "accepts only after the loop over all elements finished", "vector accepted before all %s elements were read" % ln, facts)
         rule_vector_loop(c, "C05.R2", "G2_vector_read_bytes/element", "G2_vector_read_bytes/stride")
     # ---- R3 Fp2 layout: reader = writer, and vs. the cited ZCash order (c1 first)
@@ -1120,12 +1182,14 @@ def rule_C05(c):
             else:
                 buf, comp = args[0], args[1]
             off = 0
-            mo = re.search(r"\+ (\d+)\)", buf)
+            mo = re.search(r"\+ (\d+)\)", buf) or re.fullmatch(r"&\w+\[(\d+)\]", buf)
             if mo:
                 off = int(mo.group(1))
             mi = re.search(r"\[(\d)\]", comp)
             if mi:
                 m[off] = int(mi.group(1))
+            elif re.fullmatch(r"\(?\*?\w+\)?", comp):
+                m[off] = 0   # `&real(a)` = &(*a)[0] renders as the bare object (canonical pointer form)
         lay[fn] = m
     if len(lay) == 2:
         r_, w_ = lay["Fp2_read_bytes"], lay["Fp2_write_bytes"]
@@ -1140,7 +1204,7 @@ def rule_C05(c):
             continue
         out, a = [p["name"] for p in c.p.params(fn)]
         ev = path_events(g, g.nodes)
-        okk = ("memset(%s, 0, %d)" % (out, N) in ev) or ("memset((%s + 1), 0, %d)" % (out, N - 1) in ev)
+        okk = ("memset(%s, 0, %d)" % (out, N) in ev) or ("memset(&%s[1], 0, %d)" % (out, N - 1) in ev)
         c.check(okk, "C05.R3", fn + "/infinity-all-bytes", c.p.pos(g.f), "infinity encoding zeroes every byte after the header", "infinity encoding does not clear all %d bytes" % N)
         c.check(any(e.startswith("%s[0] = 192" % out) or e.startswith("%s[0] = ((1 << 7) | (1 << 6))" % out) for e in ev), "C05.R3", fn + "/infinity-header", c.p.pos(g.f), "infinity header is compression|infinity (0xC0)", "infinity header byte is not 0xC0")
 
@@ -1172,10 +1236,34 @@ def rule_C06(c):
     g = c.cfg("C06.R4", fn)
     if g:
         res, i, indices, degree = [p["name"] for p in c.p.params(fn)]
+        # batch width: the constant added to the batch start in the inner loop bound min(degree+1, start+W)
         loops = None
-        for n in g.nodes:
-            if n.kind == "decl" and n.tag == "loops" and n.expr is not None:
-                loops = const_eval(n.expr, c.p.enums)
+        def cond_text(b):
+            # a bound held in a single-definition local (`batch_end = MIN(count, j + W)`) is looked through
+            s_ = g.r(b.expr)
+            e = strip(b.expr)
+            if e.get("kind") == "BinaryOperator" and strip(e["inner"][1]).get("kind") == "DeclRefExpr":
+                v = g.r(e["inner"][1])
+                d = g.def_of(v, b)
+                if d is not None and d.expr is not None and g.rhs_of(d, v) is not None:
+                    s_ = "(%s %s %s)" % (g.r(e["inner"][0]), e["opcode"], g.render_resolved(g.rhs_of(d, v), d, b, 0))
+            return s_
+        for b in g.nodes:
+            if b.kind != "branch":
+                continue
+            s_ = cond_text(b)
+            if "(%s + 1)" % degree not in s_:
+                continue
+            for mo in re.finditer(r"\((\w+) \+ (\w+)\)", s_):
+                if mo.group(1) == degree:
+                    continue
+                tok = mo.group(2)
+                if tok.isdigit():
+                    loops = int(tok)
+                else:
+                    for n in g.nodes:
+                        if n.kind == "decl" and n.tag == tok and n.expr is not None:
+                            loops = const_eval(n.expr, c.p.enums)
         # element width of indices
         pt = [p for p in c.p.params(fn) if p["name"] == indices][0]["type"]["qualType"]
         width = 8 if ("byte" in pt or "uint8" in pt or "unsigned char" in pt) else None
@@ -1183,8 +1271,8 @@ def rule_C06(c):
         c.check(loops is not None and width is not None and loops * width <= limb_bits, "C06.R4", fn + "/batch-width", c.p.pos(g.f),
                 "%s indices of %s bits per %d-bit limb cannot overflow" % (loops, width, limb_bits), "batching %s indices of %s bits into one %d-bit limb can overflow" % (loops, width, limb_bits))
         # inner loop bound uses k + loops, and j==i skipped, sign toggled exactly under indices[j] < indices[i]
-        conds = [g.r(b.expr) for b in g.nodes if b.kind == "branch"]
-        c.check(any("(k + loops)" in s and "(%s + 1)" % degree in s for s in conds), "C06.R4", fn + "/batch-bound", c.p.pos(g.f), "inner loop runs to min(degree+1, k+loops)", "inner batch bound is not min(degree+1, k+loops): %s" % conds)
+        conds = [cond_text(b) for b in g.nodes if b.kind == "branch"]
+        c.check(loops is not None and any(re.search(r"\(\w+ \+ (%s|\w+)\)" % loops, s) and "(%s + 1)" % degree in s and "?" in s for s in conds), "C06.R4", fn + "/batch-bound", c.p.pos(g.f), "inner loop runs to min(degree+1, k+loops)", "inner batch bound is not min(degree+1, k+loops): %s" % conds)
         for n in g.nodes:
             if n.expr is None:
                 continue
@@ -1200,7 +1288,7 @@ def rule_C06(c):
     if g:
         dest, shares, indices, degree = [p["name"] for p in c.p.params(fn)]
         rd = g.calls("E1_read_bytes")
-        okk = len(rd) == 1 and g.r(rd[0][1]["inner"][2]) == "&%s[(48 * i)]" % shares and const_eval(rd[0][1]["inner"][3], c.p.enums) == 48
+        okk = len(rd) == 1 and reads_at_stride(c, g, g.r(rd[0][1]["inner"][2]), shares, "i", 48) and const_eval(rd[0][1]["inner"][3], c.p.enums) == 48
         c.check(okk, "C06.R5", fn + "/stride", c.p.pos(g.f), "i-th share read at 48·i, 48 bytes", "shares are not read at stride 48")
         w = g.calls("E1_write_bytes")
         it = g.calls("E1_lagrange_interpolate_at_zero")
@@ -1235,8 +1323,8 @@ def rule_C07(c):
     if g:
         A, src, ln = [p["name"] for p in c.p.params("G2_vector_read_bytes")]
         for n in g.nodes:
-            if n.kind == "ret" and n.expr is not None and g.r(n.expr) == "VALID":
-                facts = g.resolved_facts(n)
+            if g.valid_accept_facts(n) is not None:
+                facts = g.valid_accept_facts(n)
                 c.check("i >= %s" % ln in facts, "C07.R5", "G2_vector_read_bytes/all-elements", c.pos(g, n), "VALID only after all elements", "vector accepted early", facts)
         rule_vector_loop(c, "C07.R5", "G2_vector_read_bytes/element-in-G2")
     g = c.cfg("C07.R5", "G2_check_log")
@@ -1249,7 +1337,7 @@ def rule_C07(c):
     if g:
         y, len_y, A, degree = [p["name"] for p in c.p.params("E2_polynomial_images")]
         calls = g.calls("E2_polynomial_image")
-        c.check(bool(calls) and g.r(calls[0][1]) == "E2_polynomial_image((%s + i), %s, %s, (i + 1))" % (y, A, degree), "C07.R5", "E2_polynomial_images/index", c.p.pos(g.f), "y[i] = Q(i+1)", "public share i is not the image at i+1")
+        c.check(bool(calls) and g.r(calls[0][1]) == "E2_polynomial_image(&%s[i], %s, %s, (i + 1))" % (y, A, degree), "C07.R5", "E2_polynomial_images/index", c.p.pos(g.f), "y[i] = Q(i+1)", "public share i is not the image at i+1")
 
 
 # ------------------------------------------------------------------ C09.R6 / X.table / C19.R3
